@@ -210,8 +210,6 @@ def ref(p):
     r = ref(p['p'])
     if op in ('map', 'parMap'):
         f = Fn(p['f'])
-        if op == 'parMap' and r.stream[1] is not None:
-            raise RefUndefined('parallel map over a failing source (F17)')
         # iteration maps the input's ITERATION (which may end with an error that no position shows,
         # e.g. a failing dropped tail below); indexing maps the positional outcomes
         souts = [apply(f, ('ok', v)) for v in r.stream[0]]
